@@ -207,9 +207,14 @@ class Case:
         est = self.cls(**self.ctor_kwargs(pobjs))
         return est, pobjs
 
+    supports_invalid_doc = False
+
     # input building: returns (X, kwargs) -- fresh objects
-    def build(self, ids, for_fit=False):
-        return [copy.deepcopy(self.pool[i]) for i in ids], {}
+    def build(self, ids, for_fit=False, invalid_at=None, invalid_kind=None):
+        X = [copy.deepcopy(self.pool[i]) for i in ids]
+        if invalid_at is not None and X:
+            _spoil_doc(X, min(invalid_at, len(X) - 1), invalid_kind)
+        return X, {}
 
     def fit_extra(self, ids):
         return {}
@@ -243,6 +248,19 @@ class Case:
         return out
 
 
+def _spoil_doc(docs, j, kind):
+    """Put an invalid token into document j (a later document of the call): another token type, or an unhashable one."""
+    d = docs[j]
+    bad = 3.5 if kind != "unhashable" else ["x"]
+    if isinstance(d, list):
+        if d and isinstance(d[0], list) and len(d[0]) == 2 and not isinstance(d[0][0], list) and isinstance(d[0][1], float):
+            d.insert(len(d) // 2, [bad, d[-1][1] + 1.0] if kind != "unhashable" else [["x"], d[-1][1] + 1.0])   # timed pair
+        elif d and isinstance(d[0], list):
+            d[len(d) // 2].append(bad)          # multiset
+        else:
+            d.insert(len(d) // 2, bad)
+
+
 def _mask_params(tape, kind):
     mk = tape.weighted(kind + ".mask", [(3, "none"), (2, "mask"), (1, "nullify")])
     if mk == "none":
@@ -254,6 +272,7 @@ def _mask_params(tape, kind):
 class NgramCase(Case):
     exact = True
     tol = 0
+    supports_invalid_doc = True
 
     @classmethod
     def draw(cls, tape, ctx):
@@ -282,6 +301,7 @@ class NgramCase(Case):
 
 class SkipgramCase(Case):
     tol = 1e-9
+    supports_invalid_doc = True
 
     @classmethod
     def draw(cls, tape, ctx):
@@ -727,6 +747,7 @@ class WassersteinCase(Case):
             if method == "HeuristicLinearAlgebra":
                 c.knobs = {}
                 c.user_reference = False
+                c.params["heuristic_normalization_power"] = tape.choice("ot.hpower", [1.0, 0.66, 0.5])
         elif which == "Sinkhorn":
             c.cls = SinkhornVectorizer
             c.input_method = "spmatrix"
@@ -737,7 +758,8 @@ class WassersteinCase(Case):
         else:
             c.cls = ApproximateWassersteinVectorizer
             c.input_method = "spmatrix"
-            c.params = {"n_components": min(n_comp, c.dim), "random_state": rs, "n_svd_iter": 3}
+            c.params = {"n_components": min(n_comp, c.dim), "random_state": rs, "n_svd_iter": 3,
+                        "normalization_power": tape.choice("ot.hpower", [1.0, 0.66, 0.5])}
             c.user_reference = False
             c.knobs = {}
         c.in_format = tape.weighted("ot.fmt", [(3, "csr"), (1, "dense")]) if c.input_method == "spmatrix" else c.input_method
@@ -847,6 +869,7 @@ class CoocCase(Case):
     rowwise = False
     tol = 1e-6
     uses_dask = True
+    supports_invalid_doc = True
 
     @classmethod
     def draw(cls, tape, ctx):
@@ -904,7 +927,13 @@ class CoocCase(Case):
             d["excluded_tokens"] = set(self.excluded)
         return d
 
-    def build(self, ids, for_fit=False):
+    def build(self, ids, for_fit=False, invalid_at=None, invalid_kind=None):
+        X, kw = self._build(ids)
+        if invalid_at is not None and X:
+            _spoil_doc(X, min(invalid_at, len(X) - 1), invalid_kind)
+        return X, kw
+
+    def _build(self, ids):
         docs = [list(self.docs[i]) for i in ids]
         if self.kind in ("token", "ngram"):
             return docs, {}
